@@ -16,20 +16,22 @@ use std::time::{Duration, Instant, SystemTime};
 
 use super::inconclusive;
 
-pub const BINS: &str = "/verif/target/bins";
+pub fn bins() -> PathBuf {
+    super::verif_root().join("target").join("bins")
+}
 
 pub fn find_bin() -> PathBuf {
-    Path::new(BINS).join("find")
+    bins().join("find")
 }
 pub fn xargs_bin() -> PathBuf {
-    Path::new(BINS).join("xargs")
+    bins().join("xargs")
 }
 pub fn rec_bin() -> PathBuf {
-    Path::new(BINS).join("rec")
+    bins().join("rec")
 }
 /// directory holding only `rec`, `true`, `false`: the PATH of everything we run
 pub fn safe_path_dir() -> PathBuf {
-    Path::new(BINS).join("path")
+    bins().join("path")
 }
 
 static PANIC_INFO: Mutex<Option<String>> = Mutex::new(None);
@@ -147,7 +149,7 @@ impl Ctx {
                 if Path::new("/dev/shm").is_dir() && std::fs::create_dir_all("/dev/shm/verif-sandbox").is_ok() {
                     "/dev/shm/verif-sandbox".to_string()
                 } else {
-                    "/verif/target/sandbox".to_string()
+                    super::verif_root().join("target").join("sandbox").to_string_lossy().into_owned()
                 }
             }
         };
@@ -222,7 +224,7 @@ impl Ctx {
                     c => norm.push(c.as_os_str()),
                 }
             }
-            if !(norm.starts_with(&self.root) || norm.starts_with(BINS)) {
+            if !(norm.starts_with(&self.root) || norm.starts_with(bins())) {
                 inconclusive(&format!("guard: argument {:?} escapes the sandbox", a.as_ref()));
             }
         }
